@@ -4,7 +4,7 @@ from mc.jobs import J
 
 PROP = 'C12'
 TECH = 'explicit-state BFS over real SyncObj nodes; alphabet = ok / raising submissions on any node; no exception may escape a tick or handler; closing run from every state: all callbacks fired once, all replicas past the raising command and equal'
-ASSUME = ['raising method = test method raising ValueError deterministically on every replica (like ReplList.remove of a missing element)',
+ASSUME = ['raising method = test methods raising ValueError / KeyError (no-argument call) / an application-defined Exception subclass / OSError deterministically on every replica',
           'fault-free network in these jobs, so every callback must fire']
 MONS = (('mc.monitors', 'ExceptionMonitor', dict(prop='C12')),
         ('mc.closing', 'AllCallbacksMonitor', dict(prop='C12', variants=('all',))))
@@ -14,15 +14,19 @@ def specs(tier):
     q = tier == 'quick'
     js = [
         J('single1:S4', 'steady', dict(n=1, methods=('boom', 'boom0')), dict(S=4, H=1), dict(k=0)),
+        J('single1-classes:S3', 'steady', dict(n=1, methods=('boomx', 'boomo')), dict(S=3, H=1), dict(k=0)),
+        J('steady2-classes:S2H1', 'steady', dict(n=2, methods=('boomx', 'boomo')), dict(S=2, H=1), dict(k=0)),
         J('steady2:S2H1', 'steady', dict(n=2, methods=('boom', 'boom0')), dict(S=2, H=1), dict(k=0)),
         J('steady2-boom:S3H1', 'steady', dict(n=2, methods=('boom',)), dict(S=3, H=1), dict(k=0)),
         J('steady3:S1H1', 'steady', dict(n=3, methods=('boom', 'boom0')), dict(S=1, H=1), dict(k=0)),
         J('steady3-boom:S2H1', 'steady', dict(n=3, methods=('boom',)), dict(S=2, H=1), dict(k=0)),
         J('steady2+1obs:S2H1', 'steady', dict(n=2, observers=1, methods=('boom',)), dict(S=2, H=1), dict(k=0)),
+        J('steady2-boom-reelect:E1H1S1', 'steady', dict(n=2, methods=('boom',)), dict(E=1, H=1, S=1), dict(k=0)),
         J('steady2-nobatch:S2H1', 'steady', dict(n=2, methods=('boom', 'boom0'), batch=False), dict(S=2, H=1), dict(k=0)),
     ]
     if not q:
-        js += [J('steady2:S4H2', 'steady', dict(n=2, methods=('boom', 'boom0')), dict(S=4, H=2), dict(k=0)),
+        js += [J('steady3-boom-reelect:E1H1S1', 'steady', dict(n=3, methods=('boom',)), dict(E=1, H=1, S=1), dict(k=0)),
+               J('steady2:S4H2', 'steady', dict(n=2, methods=('boom', 'boom0')), dict(S=4, H=2), dict(k=0)),
                J('steady3:S3H2', 'steady', dict(n=3, methods=('boom', 'boom0')), dict(S=3, H=2), dict(k=0))]
     for j in js:
         j['max_states'] = 100000 if q else 1000000
